@@ -58,8 +58,6 @@ def run(ctx, pid):
     quick = ctx.quick
     rng = ctx.rng
     lock = threading.Lock()
-    # many small JVMs run in parallel: keep each one's GC / JIT thread pools small (the box is shared)
-    os.environ.setdefault("JAVA_TOOL_OPTIONS", "-XX:ParallelGCThreads=2 -XX:CICompilerCount=2")
     exe = ctx.build("readyqueue")
     pool = concurrent.futures.ThreadPoolExecutor(max_workers=6)
     total = {"hist": 0, "walks": 0, "steps": 0, "drift": 0, "events": 0}
